@@ -66,7 +66,7 @@
            (begin result ...))
        ((case key
            ((atoms ...) => result))
-           (if (not (null? (memv key '(atoms ...))))
+           (if (memv key '(atoms ...))
               (result key)))
        ((case key
           ((atoms ...) result ...))
